@@ -848,6 +848,12 @@ class Interp:
         if isinstance(v, (Node, Cls, Fn, Bound, Builtin, Ext, Ident)):
             return True
         if isinstance(v, Rec):
+            m = self._dunder(v, "__bool__")
+            if m is not None:
+                return self.truth(self.call_function(m, [v], {}), "__bool__")
+            m = self._dunder(v, "__len__")
+            if m is not None:
+                return self.truth(self.call_function(m, [v], {}), "__len__")
             return True
         if isinstance(v, Num):
             return self.sign_query(v.term, frozenset(["neg", "pos"]), f"nonzero({A.term_str(v.term)})")
@@ -904,12 +910,25 @@ class Interp:
         if isinstance(op, (ast.Is, ast.IsNot)):
             r = self._identical(a, b)
             return r if isinstance(op, ast.Is) else (not r)
+        if isinstance(op, ast.NotEq):
+            m = self._dunder(a, "__ne__")
+            if m is not None:
+                return self.truth(self.call_function(m, [a, b], {}), "__ne__")
         if isinstance(op, (ast.Eq, ast.NotEq)):
             r = self._equal(a, b)
             return r if isinstance(op, ast.Eq) else (not r)
         if isinstance(op, (ast.In, ast.NotIn)):
             r = self._contains(b, a)
             return r if isinstance(op, ast.In) else (not r)
+        dn = {ast.Lt: ("__lt__", "__gt__"), ast.LtE: ("__le__", "__ge__"), ast.Gt: ("__gt__", "__lt__"),
+              ast.GtE: ("__ge__", "__le__")}.get(type(op))
+        if dn is not None:
+            m = self._dunder(a, dn[0])
+            if m is not None:
+                return self.truth(self.call_function(m, [a, b], {}), dn[0])
+            m = self._dunder(b, dn[1])
+            if m is not None:
+                return self.truth(self.call_function(m, [b, a], {}), dn[1])
         fa, fb = self._fin(a), self._fin(b)
         if (fa is not None) != (fb is not None):
             import operator as _op
@@ -961,9 +980,33 @@ class Interp:
             return a == b
         return self._equal(a, b)
 
+    def _dunder(self, obj, name: str):
+        """The user-defined special method of a plain object (not a tree node), or None."""
+        if isinstance(obj, Rec):
+            return self.prog.find_method(obj.cls.name, name)
+        return None
+
+    def _is_dataclass(self, obj) -> bool:
+        if not isinstance(obj, Rec):
+            return False
+        for d in obj.cls.node.decorator_list:
+            n = d.func if isinstance(d, ast.Call) else d
+            if (isinstance(n, ast.Name) and n.id == "dataclass") or (isinstance(n, ast.Attribute) and n.attr == "dataclass"):
+                return True
+        return False
+
     def _equal(self, a, b) -> bool:
         if a is None or b is None:
             return self._identical(a, b)
+        for x, y in ((a, b), (b, a)):
+            m = self._dunder(x, "__eq__")
+            if m is not None:
+                r = self.call_function(m, [x, y], {})
+                if isinstance(r, Builtin) and r.name == "NotImplemented":
+                    continue
+                return self.truth(r, "__eq__")
+        if a is not b and self._is_dataclass(a) and isinstance(b, Rec) and b.cls is a.cls:
+            return all(self._equal(a.fields.get(f), b.fields.get(f)) for f in a.cls.annotations)
         fa, fb = self._fin(a), self._fin(b)
         if fa is not None or fb is not None:
             if fa is not None and fb is None and not isinstance(b, (str, SymStr)):
@@ -1011,6 +1054,9 @@ class Interp:
         raise Unsupported(f"equality of {a!r} and {b!r} at {self.site}")
 
     def _contains(self, container, x) -> bool:
+        m = self._dunder(container, "__contains__")
+        if m is not None:
+            return self.truth(self.call_function(m, [container, x], {}), "__contains__")
         if isinstance(container, (Lst, Tup)):
             return any(self._equal(x, y) for y in container.items)
         if isinstance(container, str) and isinstance(x, str):
@@ -1090,6 +1136,10 @@ class Interp:
                 return r
         if self.depth >= self.config.get("max_inline", self.MAX_INLINE):
             raise BoundExceeded(f"inline depth at {key}")
+        if getattr(info, "is_generator", False):
+            raise Unsupported(f"generator / coroutine {key} is not modelled")
+        if getattr(info, "unknown_decorators", None):
+            raise Unsupported(f"decorator {info.unknown_decorators} on {key} is not modelled")
         env = Env(self, info, info.module, closure)
         self._bind(info, env, args, kwargs)
         self.depth += 1
@@ -1187,7 +1237,16 @@ class Interp:
         if isinstance(f, Fn):
             return self.call_function(f.info, args, kwargs, f.closure)
         if isinstance(f, Bound):
+            kind = getattr(f.info, "kind", None)
+            if kind == "static":
+                return self.call_function(f.info, list(args), kwargs)
+            if kind == "class" and not isinstance(f.selfv, Cls):
+                return self.call_function(f.info, [self.getattr_(f.selfv, "__class__")] + args, kwargs)
             return self.call_function(f.info, [f.selfv] + args, kwargs)
+        if isinstance(f, Rec):
+            m = self.prog.find_method(f.cls.name, "__call__")
+            if m is not None:
+                return self.call_function(m, [f] + args, kwargs)
         if isinstance(f, Cls):
             return self.instantiate(f.info, args, kwargs)
         if isinstance(f, Builtin):
@@ -1222,6 +1281,9 @@ class Interp:
                 return Opaque(f"len:{v.label}:{len(v.definite)}")
             if isinstance(v, CommonFactors):
                 return Opaque("len:common:1")
+            m = self._dunder(v, "__len__")
+            if m is not None:
+                return self.call_function(m, [v], {})
             raise Unsupported(f"len of {v!r} at {self.site}")
         if name == "bool":
             return self.truth(args[0]) if args else False
@@ -1296,7 +1358,7 @@ class Interp:
                 return abs(v)
             if isinstance(v, Num):
                 return Num(("fn", "abs", v.term))
-        if name in ("min", "max"):
+        if name in ("min", "max") and not kwargs:
             vals = args[0].items if len(args) == 1 and isinstance(args[0], (Lst, Tup)) else args
             if all(isinstance(x, (int, float)) and not isinstance(x, bool) for x in vals) and vals:
                 return min(vals) if name == "min" else max(vals)
@@ -1311,9 +1373,10 @@ class Interp:
             if all(isinstance(x, int) for x in args):
                 return Lst(list(range(*args)))
         if name == "enumerate":
-            v = args[0]
-            if isinstance(v, (Lst, Tup)):
-                return Lst([Tup((i, x)) for i, x in enumerate(v.items)])
+            start = args[1] if len(args) > 1 else kwargs.get("start", 0)
+            if not isinstance(start, int):
+                raise Unsupported(f"enumerate with abstract start at {self.site}")
+            return Lst([Tup((i, x)) for i, x in enumerate(self.iter_items(args[0]), start)])
         if name == "getattr":
             obj, attr = args[0], args[1]
             if isinstance(attr, str):
@@ -1335,14 +1398,96 @@ class Interp:
                         return True
                 return name == "all"
         if name == "sorted":
-            v = args[0]
-            if isinstance(v, (Lst, Tup)) and all(isinstance(x, str) for x in v.items):
-                return Lst(sorted(v.items))
+            return Lst(self._sorted(self.iter_items(args[0]), kwargs.get("key"), kwargs.get("reverse", False)))
+        if name in ("min", "max") and (kwargs.get("key") is not None or "default" in kwargs):
+            vals = self.iter_items(args[0]) if len(args) == 1 else list(args)
+            if not vals:
+                if "default" in kwargs:
+                    return kwargs["default"]
+                raise AbsRaise("ValueError", self.site, f"{name}() arg is an empty sequence")
+            keyed = self._sorted(vals, kwargs.get("key"), False)
+            # min returns the first minimal element, max the first maximal one
+            if name == "min":
+                return keyed[0]
+            kf = kwargs.get("key")
+            best = keyed[-1]
+            kb = self._concrete_key(best, kf)
+            for x in vals:
+                if self._concrete_key(x, kf) == kb:
+                    return x
+            return best
+        if name == "zip":
+            seqs = [self.iter_items(a) for a in args]
+            if kwargs.get("strict") and len({len(q) for q in seqs}) > 1:
+                raise AbsRaise("ValueError", self.site, "zip() arguments have different lengths")
+            return Lst([Tup(t) for t in zip(*seqs)])
+        if name == "reversed":
+            return Lst(list(reversed(self.iter_items(args[0]))))
+        if name == "map":
+            seqs = [self.iter_items(a) for a in args[1:]]
+            return Lst([self.call(args[0], list(t), {}) for t in zip(*seqs)])
+        if name == "filter":
+            f = args[0]
+            return Lst([x for x in self.iter_items(args[1])
+                        if self.truth(x if f is None else self.call(f, [x], {}), "filter")])
+        if name == "sum":
+            total: Any = args[1] if len(args) > 1 else kwargs.get("start", 0)
+            for x in self.iter_items(args[0]):
+                total = self.binop(ast.Add(), total, x)
+            return total
+        if name in ("chr", "ord", "round", "divmod", "pow", "bin", "hex", "oct"):
+            if all(isinstance(a, (int, float, str)) and not isinstance(a, bool) for a in args) and not kwargs:
+                import builtins as _b
+                try:
+                    r = getattr(_b, name)(*args)
+                except (ValueError, TypeError, ZeroDivisionError, OverflowError) as ex:
+                    raise AbsRaise(type(ex).__name__, self.site, str(ex))
+                return Tup(r) if isinstance(r, tuple) else r
+            if name == "round" and len(args) == 1 and self.to_term(args[0]) is not None:
+                return Num(("fn", "round", self.to_term(args[0])))
+            if name == "ord" and isinstance(args[0], SymChar) and self._fin(args[0]) is None:
+                return FinExpr(args[0].cid, ord, f"ord(ch{args[0].cid})")
+        if name == "frozenset":
+            return self.call_builtin("set", args, kwargs)
+        if name == "dict":
+            d = Dct()
+            if args:
+                src = args[0]
+                if isinstance(src, Dct):
+                    d.items.update(src.items)
+                else:
+                    for pair in self.iter_items(src):
+                        if not (isinstance(pair, (Tup, Lst)) and len(pair.items) == 2):
+                            raise AbsRaise("TypeError", self.site, "dict() sequence element is not a pair")
+                        d.items[pair.items[0]] = pair.items[1]
+            d.items.update(kwargs)
+            return d
         if name == "super":
             raise Unsupported("super() outside method")
         if name == "id":
             return Opaque("id()")
         raise Unsupported(f"builtin {name}({args!r}) at {self.site}")
+
+    def _concrete_key(self, x, keyfn):
+        k = x if keyfn is None else self.call(keyfn, [x], {})
+
+        def conc(v):
+            if isinstance(v, (int, float, str)):
+                return v
+            if isinstance(v, Tup):
+                return tuple(conc(i) for i in v.items)
+            raise Unsupported(f"ordering by an abstract key {v!r} at {self.site}")
+        return conc(k)
+
+    def _sorted(self, items: list, keyfn, reverse) -> list:
+        if not isinstance(reverse, bool):
+            reverse = self.truth(reverse, "reverse")
+        keys = [self._concrete_key(x, keyfn) for x in items]
+        try:
+            order = sorted(range(len(items)), key=lambda i: keys[i], reverse=reverse)
+        except TypeError as ex:
+            raise AbsRaise("TypeError", self.site, str(ex))
+        return [items[i] for i in order]
 
     def call_ext(self, path: str, args, kwargs):
         h = self.hooks.get("ext:" + path)
@@ -1537,6 +1682,8 @@ class Interp:
                 return obj.info.name
             m = self.prog.find_method(obj.info.name, attr)
             if m is not None:
+                if getattr(m, "kind", None) == "class":
+                    return Bound(obj, m)
                 return Fn(m)
             ca = self.prog.find_class_attr(obj.info.name, attr)
             if ca is not None:
@@ -1584,7 +1731,10 @@ class Interp:
                 return Bound(obj, _StrMethod("render:" + attr))
             if isinstance(obj, str) and attr in ("replace", "split", "lstrip", "rstrip", "startswith", "endswith",
                                                  "isspace", "isdigit", "isalpha", "find", "count", "casefold",
-                                                 "title", "swapcase", "capitalize"):
+                                                 "title", "swapcase", "capitalize", "isalnum", "isupper", "islower",
+                                                 "isnumeric", "isdecimal", "isidentifier", "rfind", "index", "rindex",
+                                                 "partition", "rpartition", "rsplit", "splitlines", "zfill", "ljust",
+                                                 "rjust", "center", "removeprefix", "removesuffix", "isascii", "istitle"):
                 return Bound(obj, _StrMethod("concrete:" + attr))
         if type(obj).__name__ == "Regex" and type(obj).__module__.endswith("regex"):
             if attr in ("match", "fullmatch", "search"):
@@ -1596,6 +1746,9 @@ class Interp:
                 return Bound(obj, _StrMethod("match:" + attr))
         if isinstance(obj, (SymStr, SymChar)) and attr in ("startswith", "endswith", "lower", "upper", "casefold"):
             return Bound(obj, _StrMethod("sym:" + attr))
+        if isinstance(obj, (SymStr, SymChar)) and attr in ("isdigit", "isalpha", "isspace", "isalnum", "isupper", "islower",
+                                                           "isnumeric", "isdecimal", "isascii"):
+            return Bound(obj, _StrMethod("symtest:" + attr))
         if isinstance(obj, FactorDict):
             if attr in ("keys",):
                 return Bound(obj, _StrMethod("keys"))
@@ -1817,16 +1970,7 @@ class Interp:
             env.vars[st.name] = Fn(FuncInfo(env.module, st, None), env)
         elif isinstance(st, ast.For):
             it = self.eval(st.iter, env)
-            if isinstance(it, (Lst, Tup)):
-                items = list(it.items)
-            elif isinstance(it, str):
-                items = list(it)
-            elif isinstance(it, (SymStr, SymChar)):
-                items = list(self._as_symstr(it).items)
-            elif isinstance(it, Dct):
-                items = list(it.items.keys())
-            else:
-                raise Unsupported(f"for over {it!r} at {self.site}")
+            items = self.iter_items(it)
             broke = False
             for x in items:
                 self.assign(st.target, x, env)
@@ -1841,6 +1985,7 @@ class Interp:
                 self.exec_block(st.orelse, env)
         elif isinstance(st, ast.While):
             n = 0
+            broke = False
             while self.truth(self.eval(st.test, env), "while"):
                 n += 1
                 if n > self.MAX_LOOP:
@@ -1848,9 +1993,12 @@ class Interp:
                 try:
                     self.exec_block(st.body, env)
                 except _Break:
+                    broke = True
                     break
                 except _Continue:
                     continue
+            if not broke:
+                self.exec_block(st.orelse, env)
         elif isinstance(st, ast.Pass):
             pass
         elif isinstance(st, ast.Break):
@@ -1867,11 +2015,41 @@ class Interp:
         elif isinstance(st, ast.Try):
             self._exec_try(st, env)
         elif isinstance(st, ast.With):
+            managers = []
             for item in st.items:
                 v = self.eval(item.context_expr, env)
+                m_enter = self._dunder(v, "__enter__")
+                if m_enter is not None:
+                    managers.append(v)
+                    v = self.call_function(m_enter, [v], {})
+                elif isinstance(v, Node):
+                    raise Unsupported(f"tree node as a context manager at {self.site}")
                 if item.optional_vars is not None:
                     self.assign(item.optional_vars, v, env)
-            self.exec_block(st.body, env)
+            try:
+                self.exec_block(st.body, env)
+            except AbsRaise as r:
+                suppressed = False
+                for mgr in reversed(managers):
+                    m_exit = self._dunder(mgr, "__exit__")
+                    if m_exit is not None and self.truth(self.call_function(
+                            m_exit, [mgr, Opaque("exc-type", truthy=True), Opaque(f"exception:{r.exc}", truthy=True),
+                                     Opaque("traceback", truthy=True)], {}), "__exit__"):
+                        suppressed = True
+                        break
+                if not suppressed:
+                    raise
+            except (_Return, _Break, _Continue):
+                for mgr in reversed(managers):
+                    m_exit = self._dunder(mgr, "__exit__")
+                    if m_exit is not None:
+                        self.call_function(m_exit, [mgr, None, None, None], {})
+                raise
+            else:
+                for mgr in reversed(managers):
+                    m_exit = self._dunder(mgr, "__exit__")
+                    if m_exit is not None:
+                        self.call_function(m_exit, [mgr, None, None, None], {})
         elif isinstance(st, ast.Delete):
             for t in st.targets:
                 if isinstance(t, ast.Attribute):
@@ -1886,6 +2064,18 @@ class Interp:
                 raise Unsupported(f"del at {self.site}")
         else:
             raise Unsupported(f"statement {type(st).__name__} at {self.site}")
+
+    def iter_items(self, it) -> list:
+        """The elements an iteration over `it` yields, as a Python list (snapshot, like iterating a copy)."""
+        if isinstance(it, (Lst, Tup)):
+            return list(it.items)
+        if isinstance(it, str):
+            return list(it)
+        if isinstance(it, (SymStr, SymChar)):
+            return list(self._as_symstr(it).items)
+        if isinstance(it, Dct):
+            return list(it.items.keys())
+        raise Unsupported(f"iteration over {it!r} at {self.site}")
 
     _EXC_PARENTS = {"ZeroDivisionError": "ArithmeticError", "OverflowError": "ArithmeticError",
                     "FloatingPointError": "ArithmeticError", "ArithmeticError": "Exception",
@@ -1964,6 +2154,20 @@ class Interp:
                 items = list(v.items)
             else:
                 raise Unsupported(f"unpacking {v!r} at {self.site}")
+            stars = [i for i, x in enumerate(t.elts) if isinstance(x, ast.Starred)]
+            if len(stars) > 1:
+                raise Unsupported(f"two starred targets at {self.site}")
+            if stars:
+                i = stars[0]
+                after = len(t.elts) - i - 1
+                if len(items) < len(t.elts) - 1:
+                    raise AbsRaise("ValueError", self.site, "not enough values to unpack")
+                for x, y in zip(t.elts[:i], items[:i]):
+                    self.assign(x, y, env)
+                self.assign(t.elts[i].value, Lst(items[i:len(items) - after]), env)
+                for x, y in zip(t.elts[i + 1:], items[len(items) - after:]):
+                    self.assign(x, y, env)
+                return
             if len(items) != len(t.elts):
                 raise AbsRaise("ValueError", self.site, "unpack length")
             for x, y in zip(t.elts, items):
@@ -1978,6 +2182,8 @@ class Interp:
                     raise AbsRaise("IndexError", self.site, "list assignment")
             elif isinstance(o, Dct):
                 o.items[k] = v
+            elif self._dunder(o, "__setitem__") is not None:
+                self.call_function(self._dunder(o, "__setitem__"), [o, k, v], {})
             else:
                 raise Unsupported(f"subscript store on {o!r} at {self.site}")
         else:
@@ -2249,7 +2455,13 @@ class Interp:
         return Lst([self.eval(x, env) for x in e.elts])
 
     def e_Set(self, e, env):
-        return Lst([self.eval(x, env) for x in e.elts])
+        out = Lst([])
+        out.is_set = True
+        for x in e.elts:
+            v = self.eval(x, env)
+            if not self._contains(out, v):
+                out.items.append(v)
+        return out
 
     def e_Dict(self, e, env):
         d = Dct()
@@ -2271,7 +2483,22 @@ class Interp:
             if isinstance(v, ast.Constant):
                 out = self.concat(out, v.value)
             elif isinstance(v, ast.FormattedValue):
-                out = self.concat(out, self.to_render(self.eval(v.value, env)))
+                val = self.eval(v.value, env)
+                spec = self.eval(v.format_spec, env) if v.format_spec is not None else ""
+                if v.conversion != -1 or spec != "":
+                    if isinstance(val, (str, int, float, bool)) or val is None:
+                        if not isinstance(spec, str):
+                            raise Unsupported(f"abstract format spec at {self.site}")
+                        conv = {-1: (lambda x: x), 115: str, 114: repr, 97: ascii}[v.conversion]
+                        try:
+                            out = self.concat(out, format(conv(val), spec))
+                        except (ValueError, TypeError) as ex:
+                            raise AbsRaise(type(ex).__name__, self.site, str(ex))
+                    else:
+                        # formatted / converted text of an abstract value: an unknown string
+                        out = self.concat(out, Opaque("format"))
+                else:
+                    out = self.concat(out, self.to_render(val))
         return out
 
     def e_Subscript(self, e, env):
@@ -2279,14 +2506,23 @@ class Interp:
         if isinstance(e.slice, ast.Slice):
             lo = self.eval(e.slice.lower, env) if e.slice.lower else None
             hi = self.eval(e.slice.upper, env) if e.slice.upper else None
-            if isinstance(o, (Lst, Tup)) and all(x is None or isinstance(x, int) for x in (lo, hi)):
-                return Lst(list(o.items)[lo:hi])
+            st = self.eval(e.slice.step, env) if e.slice.step else None
+            if not all(x is None or (isinstance(x, int) and not isinstance(x, bool)) for x in (lo, hi, st)):
+                raise Unsupported(f"slice with abstract bounds of {o!r} at {self.site}")
+            if st == 0:
+                raise AbsRaise("ValueError", self.site, "slice step cannot be zero")
+            if isinstance(o, Tup):
+                return Tup(list(o.items)[lo:hi:st])
+            if isinstance(o, Lst):
+                return Lst(list(o.items)[lo:hi:st])
             if isinstance(o, str):
-                return o[lo:hi]
-            if isinstance(o, SymStr) and all(x is None or isinstance(x, int) for x in (lo, hi)):
-                return SymStr(o.items[lo:hi])
+                return o[lo:hi:st]
+            if isinstance(o, SymStr):
+                return SymStr(o.items[lo:hi:st])
             raise Unsupported(f"slice of {o!r} at {self.site}")
         k = self.eval(e.slice, env)
+        if self._dunder(o, "__getitem__") is not None:
+            return self.call_function(self._dunder(o, "__getitem__"), [o, k], {})
         if isinstance(o, (Lst, Tup)) and isinstance(k, int):
             try:
                 return list(o.items)[k]
@@ -2337,7 +2573,9 @@ class Interp:
 
     def e_ListComp(self, e, env):
         if len(e.generators) != 1:
-            raise Unsupported(f"nested comprehension at {self.site}")
+            out: list = []
+            self._comprehension(e.generators, env, lambda sub: out.append(self.eval(e.elt, sub)))
+            return Lst(out)
         g = e.generators[0]
         it = self.eval(g.iter, env)
         h = self.hooks.get("listcomp")
@@ -2345,15 +2583,59 @@ class Interp:
             r = h(self, e, it, env)
             if r is not NotImplemented:
                 return r
-        if isinstance(it, (Lst, Tup)):
-            out = []
-            sub = Env(self, env.func, env.module, env)
-            for x in it.items:
+        out = []
+        sub = Env(self, env.func, env.module, env)
+        for x in self.iter_items(it):
+            self.assign(g.target, x, sub)
+            if all(self.truth(self.eval(c, sub)) for c in g.ifs):
+                out.append(self.eval(e.elt, sub))
+        return Lst(out)
+
+    def _comprehension(self, generators, env, emit) -> None:
+        sub = Env(self, env.func, env.module, env)
+
+        def rec(i):
+            if i == len(generators):
+                emit(sub)
+                return
+            g = generators[i]
+            if getattr(g, "is_async", 0):
+                raise Unsupported(f"async comprehension at {self.site}")
+            for x in self.iter_items(self.eval(g.iter, sub if i else env)):
                 self.assign(g.target, x, sub)
                 if all(self.truth(self.eval(c, sub)) for c in g.ifs):
-                    out.append(self.eval(e.elt, sub))
-            return Lst(out)
-        raise Unsupported(f"comprehension over {it!r} at {self.site}")
+                    rec(i + 1)
+        rec(0)
+
+    def e_DictComp(self, e, env):
+        d = Dct()
+
+        def emit(sub):
+            k = self.eval(e.key, sub)
+            v = self.eval(e.value, sub)
+            for kk in list(d.items):
+                if self._equal(kk, k):
+                    d.items[kk] = v
+                    return
+            d.items[k] = v
+        self._comprehension(e.generators, env, emit)
+        return d
+
+    def e_SetComp(self, e, env):
+        out = Lst([])
+        out.is_set = True
+
+        def emit(sub):
+            v = self.eval(e.elt, sub)
+            if not self._contains(out, v):
+                out.items.append(v)
+        self._comprehension(e.generators, env, emit)
+        return out
+
+    def e_NamedExpr(self, e, env):
+        v = self.eval(e.value, env)
+        self.assign(e.target, v, env)
+        return v
 
     def e_GeneratorExp(self, e, env):
         return self.e_ListComp(e, env)
@@ -2391,7 +2673,8 @@ def _return_index(fn: ast.FunctionDef, st: ast.Return) -> int:
 
 
 _BUILTINS = {"all", "any", "sorted", "isinstance", "len", "bool", "print", "str", "repr", "type", "list", "tuple", "set", "int", "float",
-             "abs", "min", "max", "range", "enumerate", "getattr", "hasattr", "super", "id", "dict"}
+             "abs", "min", "max", "range", "enumerate", "getattr", "hasattr", "super", "id", "dict", "zip", "reversed", "map",
+             "filter", "sum", "chr", "ord", "round", "divmod", "pow", "bin", "hex", "oct", "frozenset", "NotImplemented"}
 _EXC_NAMES = {"ValueError", "Exception", "NotImplementedError", "TypeError", "IndexError", "KeyError",
               "AssertionError", "AttributeError", "EnvironmentError", "RuntimeError"}
 
@@ -2413,8 +2696,9 @@ class _StrMethod(_ListMethod):
 
 
 _LIST_METHODS = {n: _ListMethod(n) for n in ("append", "pop", "insert", "sort", "extend", "index", "remove", "copy", "add",
-                                              "union")}
-_DICT_METHODS = {n: _ListMethod("dict_" + n) for n in ("get", "keys", "values", "items")}
+                                              "union", "reverse", "clear", "count", "discard", "update")}
+_DICT_METHODS = {n: _ListMethod("dict_" + n) for n in ("get", "keys", "values", "items", "setdefault", "pop", "update", "copy",
+                                                       "clear")}
 
 _orig_call_function = Interp.call_function
 
@@ -2435,6 +2719,23 @@ def _call_builtin_method(self: Interp, info, args, kwargs):
         return self._regex_call(obj, n[3:], list(rest), kwargs)
     if n.startswith("match:"):
         return self._match_call(obj, n[6:], list(rest))
+    if isinstance(obj, (SymStr, SymChar)) and n.startswith("symtest:"):
+        items = self._as_symstr(obj).items
+        fn = getattr(str, n[8:])
+        if not items:
+            return False
+        for x in items:
+            if isinstance(x, str):
+                ok = fn(x)
+            elif isinstance(x, SymChar):
+                ok = self.char_test(x, fn, f"ch{x.cid}.{n[8:]}()")
+            elif isinstance(x, FinExpr):
+                ok = self.char_test(SymChar(x.cid), lambda m, f=x.fn: fn(f(m)), f"{x.desc}.{n[8:]}()")
+            else:
+                raise Unsupported(f"{n} on {x!r} at {self.site}")
+            if not ok:
+                return False
+        return True
     if isinstance(obj, (SymStr, SymChar)) and n in ("sym:lower", "sym:upper", "sym:casefold"):
         fn = getattr(str, n[4:])
         out = []
@@ -2467,6 +2768,17 @@ def _call_builtin_method(self: Interp, info, args, kwargs):
             if not self._contains(obj, rest[0]):
                 obj.items.append(rest[0])
             return None
+        if n == "discard" and getattr(obj, "is_set", False):
+            for i, x in enumerate(obj.items):
+                if self._equal(x, rest[0]):
+                    del obj.items[i]
+                    break
+            return None
+        if n == "update" and getattr(obj, "is_set", False):
+            for x in self.iter_items(rest[0]):
+                if not self._contains(obj, x):
+                    obj.items.append(x)
+            return None
         if n == "union" and getattr(obj, "is_set", False) and isinstance(rest[0], (Lst, Tup)):
             out = Lst(list(obj.items))
             out.is_set = True
@@ -2488,9 +2800,27 @@ def _call_builtin_method(self: Interp, info, args, kwargs):
         if n == "copy":
             return Lst(obj.items)
         if n == "sort":
-            if all(isinstance(x, str) for x in obj.items):
-                obj.items.sort()
+            obj.items[:] = self._sorted(list(obj.items), kwargs.get("key"), kwargs.get("reverse", False))
             return None
+        if n == "reverse":
+            obj.items.reverse()
+            return None
+        if n == "clear":
+            del obj.items[:]
+            return None
+        if n == "count":
+            return sum(1 for x in obj.items if self._equal(x, rest[0]))
+        if n == "index":
+            for i, x in enumerate(obj.items):
+                if self._equal(x, rest[0]):
+                    return i
+            raise AbsRaise("ValueError", self.site, "value is not in list")
+        if n == "remove":
+            for i, x in enumerate(obj.items):
+                if self._equal(x, rest[0]):
+                    del obj.items[i]
+                    return None
+            raise AbsRaise("ValueError", self.site, "list.remove(x): x not in list")
     if isinstance(obj, Dct):
         if n == "dict_get":
             for kk, vv in obj.items.items():
@@ -2502,6 +2832,42 @@ def _call_builtin_method(self: Interp, info, args, kwargs):
             return Lst(list(obj.items.keys()))
         if n == "dict_values":
             return Lst(list(obj.items.values()))
+        if n == "dict_items":
+            return Lst([Tup((k, v)) for k, v in obj.items.items()])
+        if n == "dict_copy":
+            d = Dct()
+            d.items.update(obj.items)
+            return d
+        if n == "dict_clear":
+            obj.items.clear()
+            return None
+        if n == "dict_update":
+            src = rest[0] if rest else Dct()
+            if isinstance(src, Dct):
+                pairs = list(src.items.items())
+            else:
+                pairs = [(p_.items[0], p_.items[1]) for p_ in self.iter_items(src)]
+            for k, v in pairs + list(kwargs.items()):
+                for kk in list(obj.items):
+                    if self._equal(kk, k):
+                        obj.items[kk] = v
+                        break
+                else:
+                    obj.items[k] = v
+            return None
+        if n in ("dict_setdefault", "dict_pop"):
+            for kk, vv in list(obj.items.items()):
+                if self._equal(kk, rest[0]):
+                    if n == "dict_pop":
+                        del obj.items[kk]
+                    return vv
+            self._stale_read(obj, rest[0])
+            if n == "dict_setdefault":
+                obj.items[rest[0]] = rest[1] if len(rest) > 1 else None
+                return obj.items[rest[0]]
+            if len(rest) > 1:
+                return rest[1]
+            raise AbsRaise("KeyError", self.site, repr(rest[0]))
     if isinstance(obj, (str, Render)):
         if n == "format":
             if isinstance(obj, str):
@@ -2548,9 +2914,12 @@ def _call_builtin_method(self: Interp, info, args, kwargs):
                 return False
             raise Unsupported(f"endswith on a partly abstract string at {self.site}")
         if isinstance(obj, str) and n.startswith("concrete:"):
-            if all(isinstance(r, (str, int)) for r in rest):
-                r = getattr(obj, n.split(":", 1)[1])(*rest)
-                return Lst(r) if isinstance(r, list) else r
+            if all(isinstance(r, (str, int)) or r is None for r in rest):
+                try:
+                    r = getattr(obj, n.split(":", 1)[1])(*rest)
+                except (ValueError, TypeError) as ex:
+                    raise AbsRaise(type(ex).__name__, self.site, str(ex))
+                return Lst(r) if isinstance(r, list) else (Tup(r) if isinstance(r, tuple) else r)
             raise Unsupported(f"str.{n} with abstract arguments at {self.site}")
     if isinstance(obj, FactorDict) and n == "keys":
         return obj
